@@ -221,6 +221,26 @@ def h_name(params, vals, ctx):
     return fmt == ("bk_wav" if directive == "make_wav" else "bk_turbo_wav") and path == want_path and len(name) == 16 and name == exp
 
 
+def h_name_fixed(params, vals, ctx):
+    """Tape names given as concrete text (the empty name and the exact-fit names): padded to 16 bytes, never replaced by the file name."""
+    x = vals["X"]
+    require(-256 < x < 256)
+    directive, name = params["dir"], params["name"]
+    q = params.get("quote", '"')
+    text = f'{directive} "tape.wav", {q}{name}{q}\n.byte {{X}}, 1\n'
+    o = assemble([("/w/src/prog.mac", text)], vals, route=ctx.route, charset="utf-8")
+    ctx.observe_outcome(o)
+    ctx.reach(o.status == "ok")
+    if o.status != "ok" or o.errors:
+        return False
+    ef = o.comp.emitted_files
+    if len(ef) != 1:
+        return False
+    fmt, path, got = ef[0][2], ef[0][3], ef[0][4]
+    want = name.encode("utf-8") + b" " * (16 - len(name.encode("utf-8")))
+    return fmt == ("bk_wav" if directive == "make_wav" else "bk_turbo_wav") and path == "/w/src/tape.wav" and got == want
+
+
 SUFFIXES = [".mac", ".MAC", ".Mac", ".ma", ".macx", ".bin", ".BIN", ".b", ""]
 DIRS = ["/w/src", "/w/a.mac", "/"]
 DIRECTIVES = {
@@ -336,7 +356,20 @@ def h_multi(params, vals, ctx):
     x, b = vals["X"], vals["B"]
     require(-256 < x < 256 and 0 <= b < 65536)
     dirs = params["directives"]  # [[directive, path, tape name or None], ...]
-    text = ".link {B}\n" + "".join(f'{d} "{p}"' + (f', "{n}"' if n is not None else "") + "\n" for d, p, n in dirs) + ".byte {X}, 2\n"
+    if params.get("lazy"):
+        # the last character of every path / tape name is spelled <SYMBOL>, the symbol being defined at the end of the source:
+        # the directive cannot be evaluated when it is met and runs when the image is put together
+        lines, defs = [], []
+        for k, (d, p, n) in enumerate(dirs):
+            line = f'{d} "{p[:-1]}"<LP{k}>'
+            defs.append(f"LP{k} = {ord(p[-1])}.")
+            if n is not None:
+                line += f', "{n[:-1]}"<LN{k}>'
+                defs.append(f"LN{k} = {ord(n[-1])}.")
+            lines.append(line)
+        text = ".link {B}\n" + "\n".join(lines) + "\n.byte {X}, 2\n" + "\n".join(defs) + "\n"
+    else:
+        text = ".link {B}\n" + "".join(f'{d} "{p}"' + (f', "{n}"' if n is not None else "") + "\n" for d, p, n in dirs) + ".byte {X}, 2\n"
     o = assemble([("/w/src/prog.mac", text)], vals, route=ctx.route, charset="utf-8")
     ctx.observe_outcome(o)
     ctx.reach(o.status == "ok")
@@ -383,6 +416,76 @@ def h_multi(params, vals, ctx):
             want_name = (n if n is not None else stem).encode("utf-8")[:16].ljust(16, b" ")
             if not (tag == "WAVCALL" and f == fmt and cb == b and len(cc) == 2 and cc[0] == img[0] and cc[1] == img[1] and cn == want_name):
                 return False
+    return True
+
+
+OUTNAMES = ["/w/out/o.bin", "/w/out/O.BIN", "/w/sub.bin/Mixed.Bin", "/w/out/x.raw", "/w/out/noext", "/w/dir.bin/plain", "/w/out/a.bin.txt", "/w/out/.bin",
+            "/w/out/bin", "rel/p.BiN", "-", "-.bin", "-.BIN", "-.raw", "/w/out/prog.wav"]
+SRCNAMES = ["/w/src/prog.mac", "/w/src/PROG.MAC", "/w/src/p.Mac", "/w/src/p.asm", "/w/src/noext", "/w/src.mac/q", "/w/src/r.mac.mac"]
+
+
+def h_cli_out(params, vals, ctx):
+    """-o / --implicit-bin through the real main_cli: which file is written, in which container, with which bytes."""
+    from .. import cli_harness as CH
+    from ..symasm import render, inject
+    import pdpy11.parser as PP
+    i, j, x, b = vals["I"], vals["J"], vals["X"], vals["B"]
+    require(0 <= i < len(OUTNAMES) and 0 <= j < len(SRCNAMES))
+    require(-256 < x < 256 and 0 <= b < 65536)
+    i, j = concretize(i), concretize(j)
+    mode = params["mode"]
+    src = SRCNAMES[j]
+    tmpl = ".link {B}\n" + ('make_raw "d.raw"\n' if "directive" in mode else "") + ".byte {X}, 2\n"
+    order = ["B", "X"]
+    text = render(tmpl, order, vals, ctx.route)
+    real_parse = PP.parse
+
+    def parse_fn(path, t):
+        with notrace():
+            ast = real_parse(path, t)
+            if ctx.route == "inject":
+                inject(ast, order, vals)
+        return ast
+
+    kw = {}
+    if mode.startswith("o"):
+        kw["outfile"] = OUTNAMES[i]
+    if "implicit" in mode:
+        kw["implicit_bin"] = True
+    r = CH.run_cli([src], {src: text}, parse_fn=parse_fn, **kw)
+    ctx.observe(r.exit, r.writes, r.crash)
+    ctx.reach(r.crash is None and r.exit is None)
+    if r.crash is not None or r.exit is not None:
+        return False
+    img = [x % 256, 2]
+
+    def is_image(blob, fmt):
+        if fmt == "raw":
+            return len(blob) == 2 and blob[0] == img[0] and blob[1] == img[1]
+        return len(blob) == 6 and blob[0] + 256 * blob[1] == b and blob[2] + 256 * blob[3] == 2 and blob[4] == img[0] and blob[5] == img[1]
+
+    expect = []      # (path or None for stdout, container)
+    if "directive" in mode:
+        expect.append(("/w/src/d.raw" if not src.startswith("/w/src.mac") else "/w/src.mac/d.raw", "raw"))
+    if mode.startswith("o"):
+        name = OUTNAMES[i]
+        fmt = "bin" if name.split("/")[-1].lower()[-4:] == ".bin" else "raw"
+        expect.append((None if name in ("-", "-.bin", "-.BIN", "-.raw") else name, fmt))
+    elif "implicit" in mode and "directive" not in mode:
+        stem = src[:-4] if src.lower()[-4:] == ".mac" else src
+        expect.append((stem + ".bin", "bin"))
+    files = [e for e in expect if e[0] is not None]
+    if len(r.writes) != len(files):
+        return False
+    for (path, fmt), (wpath, wmode, data) in zip(files, r.writes):
+        if wpath != path or wmode != "wb" or not is_image(data, fmt):
+            return False
+    to_stdout = [e for e in expect if e[0] is None]
+    if len(r.stdout) != len(to_stdout):
+        return False
+    for (_, fmt), data in zip(to_stdout, r.stdout):
+        if not is_image(data, fmt):
+            return False
     return True
 
 
@@ -434,6 +537,10 @@ def obligations(tier, seed):
                 continue
             obs.append(Ob(oid=f"name/{d}/{n}", harness=P + "h_name", params={"n": n, "dir": d}, vars={"S_1": "str"}, timeout=600,
                           pre="name = n x 'A' + one symbolic character (utf-8), code point windows around the length boundaries"))
+    for d in ("make_wav", "make_turbo_wav"):
+        for nm, q in (("", '"'), ("", "'"), ("", "/"), (" ", '"'), ("A" * 16, '"'), ("tape", '"')):
+            obs.append(Ob(oid=f"name/fixed/{d}/{len(nm)}" + {34: "dq", 39: "sq", 47: "sl"}[ord(q)], harness=P + "h_name_fixed", params={"dir": d, "name": nm, "quote": q},
+                          vars={"X": "int"}, timeout=300))
     for n in (3, 15):
         obs.append(Ob(oid=f"name/bk-charset/explicit/{n}", harness=P + "h_name", params={"n": n, "dir": "make_wav", "charset": "bk"}, vars={"S_1": "str"}, timeout=900))
         obs.append(Ob(oid=f"name/bk-charset/from-path/{n}", harness=P + "h_name", params={"n": n, "dir": "make_turbo_wav", "charset": "bk", "default_name": True},
@@ -452,6 +559,11 @@ def obligations(tier, seed):
     ]
     for i, m in enumerate(multis):
         obs.append(Ob(oid=f"multi/{i}", harness=P + "h_multi", params={"directives": m}, vars={"X": "int", "B": "int"}, timeout=600))
+        obs.append(Ob(oid=f"multi-lazy/{i}", harness=P + "h_multi", params={"directives": m, "lazy": True}, vars={"X": "int", "B": "int"}, timeout=600,
+                      note="paths and names end in <SYMBOL> defined at the end of the source"))
+    for mode in ("o", "implicit", "o+implicit", "o+directive", "implicit+directive", "directive"):
+        obs.append(Ob(oid=f"cli/{mode}", harness=P + "h_cli_out", params={"mode": mode}, vars={"I": "int", "J": "int", "X": "int", "B": "int"}, timeout=900, per_path=120,
+                      pre="-o from a 15-name catalogue x source from a 7-name catalogue (indices realised), image byte and base symbolic"))
     payloads = [[0o1000, [0x10, 0x42], "test"], [0o40000, list(range(1, 40)), "LONGER-NAME-16ch"], [0, [], ""], [0o177776, [0xFF] * 300, "ff"]]
     obs.append(Ob(oid="fulltape/concrete", harness=P + "h_fulltape", params={"payloads": payloads}, vars={"K": "int"}, timeout=900, per_path=300,
                   note="concrete side check: whole pulse train read by ref.bk_tape.read_tape"))
